@@ -298,6 +298,10 @@ fn rule_perform_math_ops(
     available_in: &AvailableValueMap<Register>,
 ) {
     if let Some(reg) = node.writes_to() {
+        // x0 is hard-wired to zero: a write to it is discarded
+        if reg.get().is_const_zero() {
+            return;
+        }
         let lhs = match node {
             ParserNode::Arith(expr) => available_in.get(expr.rs1.get()).cloned(),
             ParserNode::IArith(expr) => available_in.get(expr.rs1.get()).cloned(),
